@@ -104,7 +104,7 @@ KidsRange(kids) ==
 
 \* walk_callback(pos): `old` is whatever file is at pos before the call
 MergeTile(mode, bottomup, ranged, kids, old) ==
-    IF \A i \in 1..4 : ~kids[i].ex THEN old                        \* early return: nothing read, nothing written
+    IF \A i \in 1..4 : ~kids[i].ex THEN Absent                     \* nothing beneath: nothing written, an earlier file removed
     ELSE LET m == BlockReduce(mode, Mosaic(mode, bottomup, kids))
          IN IF AllUndef(mode, m) THEN Absent                       \* not written; an earlier file is removed
             ELSE Tile(m, IF ranged THEN KidsRange(kids) ELSE NoRange)
